@@ -32,6 +32,7 @@ type Group struct {
 	Unwind      int                            `json:"unwind"`
 	MaxPaths    int                            `json:"max_paths"`
 	ConcMax     int                            `json:"conc_max"`
+	ConcSample  int                            `json:"conc_sample"`
 	InstanceSec map[string]int                 `json:"instance_sec"`
 	Covers      []string                       `json:"covers"`
 	Tiers       []string                       `json:"tiers"`
@@ -288,7 +289,7 @@ func main() {
 			defer func() { <-sem }()
 			in := insts[i]
 			g := in.g
-			cfg := &symx.Config{Params: in.params, Abstract: g.Abstract, Unwind: g.Unwind, MaxPaths: g.MaxPaths, ConcMax: g.ConcMax}
+			cfg := &symx.Config{Params: in.params, Abstract: g.Abstract, Unwind: g.Unwind, MaxPaths: g.MaxPaths, ConcMax: g.ConcMax, ConcSample: g.ConcSample}
 			cfg.TimeoutMs = g.TimeoutMs[*tier]
 			if cfg.TimeoutMs == 0 {
 				if *tier == "thorough" {
@@ -356,6 +357,7 @@ func main() {
 	groupClean := map[string]bool{}
 	groupSeen := map[string]bool{}
 	groupViolated := map[string]bool{}
+	blockCov := map[string]*symx.BlockCov{}
 	coversHit := map[string]map[string]bool{}
 	var okCases []candidate
 	ifconv := 0
@@ -383,6 +385,19 @@ func main() {
 		}
 		for k, v := range rep.Funcs {
 			funcs[k] += v
+		}
+		for k, bc := range rep.Blocks {
+			if bc.Total < 0 {
+				continue
+			}
+			u := blockCov[k]
+			if u == nil {
+				u = &symx.BlockCov{Total: bc.Total, Hit: map[int]bool{}, Line: bc.Line}
+				blockCov[k] = u
+			}
+			for i := range bc.Hit {
+				u.Hit[i] = true
+			}
 		}
 		for k, v := range rep.Stubs {
 			stubs[k] += v
@@ -690,7 +705,38 @@ func main() {
 		gb, _ := json.Marshal(grid)
 		bounds = append(bounds, fmt.Sprintf("%s: grid=%s params=%v %s", g.Harness, gb, g.Params, g.Bounds))
 	}
+	// basic-block coverage of the module's functions over all paths of all instances: blocks never executed are
+	// code the grid does not reach (panic-only blocks such as bounds-check failures are not separate SSA blocks)
+	type bcOut struct {
+		Fn     string `json:"fn"`
+		Hit    int    `json:"blocks_hit"`
+		Total  int    `json:"blocks"`
+		Missed []int  `json:"lines_of_unreached_blocks,omitempty"`
+	}
+	var bcs []bcOut
+	hitAll, totAll := 0, 0
+	for k, u := range blockCov {
+		o := bcOut{Fn: k, Hit: len(u.Hit), Total: u.Total}
+		for i := 0; i < u.Total; i++ {
+			if !u.Hit[i] && u.Line[i] > 0 {
+				o.Missed = append(o.Missed, u.Line[i])
+			}
+		}
+		sort.Ints(o.Missed)
+		hitAll += o.Hit
+		totAll += o.Total
+		bcs = append(bcs, o)
+	}
+	sort.Slice(bcs, func(i, j int) bool { return bcs[i].Fn < bcs[j].Fn })
+	if *verbose || os.Getenv("VERIF_COVERAGE") != "" {
+		for _, o := range bcs {
+			if o.Hit < o.Total {
+				fmt.Printf("COVERAGE %s %d/%d unreached at lines %v\n", o.Fn, o.Hit, o.Total, o.Missed)
+			}
+		}
+	}
 	cov := map[string]any{
+		"block_coverage":                map[string]any{"blocks_hit": hitAll, "blocks": totAll, "per_function": bcs},
 		"states":                        states,
 		"transitions":                   transitions,
 		"traces_validated_against_impl": replays,
